@@ -367,6 +367,10 @@ func checkC01(e *Engine, r *Report) {
 		checkMapRanges(e, r, ee, reach)
 	})
 
+	r.Rule("R7", "OWNERSHIP", "process-lifetime state: reachable repo code never sorts, compacts, reverses or element-assigns a slice it does not own (a parameter, or the result of a dependency call, which may alias a package-level table such as go-ethereum's precompile address lists) — it works on a copy; otherwise results depend on what the process executed before", 1, func() {
+		checkSliceOwnership(e, r, owned)
+	})
+
 	r.Rule("R3", "SCHED", "no goroutine start, select, channel operation or lock in repo-owned code reachable from block execution", 1, func() {
 		n := 0
 		for _, f := range owned {
@@ -1084,4 +1088,164 @@ func checkTestSwitches(e *Engine, r *Report, reach map[*ssa.Function]bool) {
 		}
 	}
 	r.Count("globals_read_on_reachable_paths", len(gs))
+}
+
+var inPlaceMutators = []CallSpec{
+	{"sort", "", "Slice"}, {"sort", "", "SliceStable"}, {"sort", "", "Sort"}, {"sort", "", "Stable"}, {"sort", "", "Strings"}, {"sort", "", "Ints"},
+	{"slices", "", "Sort"}, {"slices", "", "SortFunc"}, {"slices", "", "SortStableFunc"}, {"slices", "", "Compact"}, {"slices", "", "CompactFunc"}, {"slices", "", "Reverse"},
+}
+
+// sliceOwner classifies where a slice value comes from: "fresh" (make, literal, append to nil/fresh, Clone, a call into
+// repository code that itself returns a fresh slice is NOT followed), "param", "foreign-call", "global" or "unknown".
+func sliceOwner(e *Engine, v ssa.Value, depth int) string {
+	return sliceOwner0(e, v, depth, map[ssa.Value]bool{})
+}
+
+func sliceOwner0(e *Engine, v ssa.Value, depth int, seen map[ssa.Value]bool) string {
+	if depth > 12 {
+		return "unknown"
+	}
+	if seen[v] {
+		return "fresh" // cycle (x = append(x, …)): neutral
+	}
+	seen[v] = true
+	v = resolveLocal(v)
+	switch x := v.(type) {
+	case *ssa.MakeSlice:
+		return "fresh"
+	case *ssa.Slice:
+		if a, ok := x.X.(*ssa.Alloc); ok {
+			_ = a
+			return "fresh" // slice literal
+		}
+		return sliceOwner0(e, x.X, depth+1, seen)
+	case *ssa.Const:
+		return "fresh" // nil
+	case *ssa.Parameter:
+		return "param " + x.Name()
+	case *ssa.Phi:
+		worst := "fresh"
+		for _, ev := range x.Edges {
+			if ev == ssa.Value(x) {
+				continue
+			}
+			if o := sliceOwner0(e, ev, depth+1, seen); o != "fresh" {
+				worst = o
+			}
+		}
+		return worst
+	case *ssa.UnOp:
+		if x.Op == token.MUL {
+			if _, ok := x.X.(*ssa.Global); ok {
+				return "global " + x.X.Name()
+			}
+			if fa, ok := x.X.(*ssa.FieldAddr); ok {
+				return "field " + fieldName(fa)
+			}
+			if a, ok := x.X.(*ssa.Alloc); ok {
+				// a local variable spilled to memory (captured by a closure): merge over everything stored into it
+				worst := "fresh"
+				for _, st := range storesTo(a) {
+					if o := sliceOwner0(e, st.Val, depth+1, seen); o != "fresh" {
+						worst = o
+					}
+				}
+				return worst
+			}
+			if fv, ok := x.X.(*ssa.FreeVar); ok {
+				return "captured " + fv.Name()
+			}
+		}
+	case *ssa.Call:
+		if b, ok := x.Call.Value.(*ssa.Builtin); ok && b.Name() == "append" {
+			// append(base, …): result may alias base's backing array
+			return sliceOwner0(e, x.Call.Args[0], depth+1, seen)
+		}
+		fo := calleeObj(x)
+		if fo != nil && fo.Pkg() != nil {
+			if (fo.Pkg().Path() == "slices" && fo.Name() == "Clone") || (fo.Pkg().Path() == "maps" && (fo.Name() == "Keys" || fo.Name() == "Values")) {
+				return "fresh"
+			}
+			if e.RepoOwned(fo.Pkg().Path()) {
+				return "repo-call " + fo.Name()
+			}
+			return "foreign-call " + funcObjKey(fo)
+		}
+	}
+	return "unknown"
+}
+
+func checkSliceOwnership(e *Engine, r *Report, owned []*ssa.Function) {
+	n := 0
+	for _, f := range owned {
+		if IsGenerated(e.File(f.Pos())) || f.Blocks == nil {
+			continue
+		}
+		cnt := 0
+		for _, c := range callsTo(f, false, inPlaceMutators...) {
+			arg := c.Common().Args[0]
+			if mi, ok := arg.(*ssa.MakeInterface); ok {
+				arg = mi.X
+			}
+			if _, isSlice := arg.Type().Underlying().(*types.Slice); !isSlice {
+				continue
+			}
+			n++
+			cnt++
+			key := "in-place " + calleeObj(c).Name() + " › " + fnKey(f)
+			if cnt > 1 {
+				key += " #" + itoa(cnt)
+			}
+			o := sliceOwner(e, arg, 0)
+			ok := o == "fresh" || strings.HasPrefix(o, "repo-call") || strings.HasPrefix(o, "field ")
+			r.Check(ok, key, e.Pos(c.Pos()), "operates on "+o, "a slice that this function does not own ("+o+") is re-ordered/compacted in place: if it aliases a table that lives for the whole process (e.g. go-ethereum's precompile address list via append on spare capacity) every later execution sees the mutated table — results depend on the process history")
+		}
+	}
+	if n == 0 {
+		r.OK("in-place mutators", "", "none in reachable repository code")
+	}
+	// append onto a slice returned by a dependency / read from a dependency's package-level variable: if that slice has
+	// spare capacity the elements are written into memory shared by every execution in the process (and by concurrent
+	// CheckTx / FinalizeBlock goroutines)
+	for _, f := range owned {
+		if IsGenerated(e.File(f.Pos())) || f.Blocks == nil {
+			continue
+		}
+		cnt := 0
+		for _, c := range callsIn(f, false, func(c ssa.CallInstruction) bool {
+			b, ok := c.Common().Value.(*ssa.Builtin)
+			return ok && b.Name() == "append" && len(c.Common().Args) == 2
+		}) {
+			base := c.Common().Args[0]
+			o := sliceOwner(e, base, 0)
+			if !(strings.HasPrefix(o, "foreign-call") || strings.HasPrefix(o, "global")) {
+				continue
+			}
+			if strings.HasPrefix(o, "global") {
+				// the repository's own key-prefix variables are one-element literals (cap == len): append always copies
+				if u, ok := resolveLocal(base).(*ssa.UnOp); ok {
+					if g, isG := u.X.(*ssa.Global); isG && g.Pkg != nil && e.RepoOwned(g.Pkg.Pkg.Path()) {
+						continue
+					}
+				}
+			}
+			// appending nothing is harmless; a variadic spread of an empty literal cannot be told apart: report all
+			cnt++
+			key := "append onto foreign slice › " + fnKey(f)
+			if cnt > 1 {
+				key += " #" + itoa(cnt)
+			}
+			// dependencies that document a fresh result are exempt
+			fresh := false
+			for _, okFn := range []string{"types.Coins", "types.NewCoins", "types.Events", ".GetMsgs", "strings.", "bytes."} {
+				if strings.Contains(o, okFn) {
+					fresh = true
+				}
+			}
+			if fresh {
+				continue
+			}
+			r.Check(false, key, e.Pos(c.Pos()), "", "elements are appended onto a slice owned by a dependency ("+o+"): when that slice has spare capacity (e.g. go-ethereum's PrecompiledAddressesBerlin: len 9, cap 16) the write lands in memory shared by all executions of the process, including the concurrent CheckTx and FinalizeBlock goroutines — the values read back can be another execution's")
+		}
+	}
 }
